@@ -125,20 +125,110 @@ PROPS["C05"] = dict(
     ],
 )
 
+PROPS["C06"] = dict(
+    title="Threshold shares reconstruct the unique group signature for any >= t+1 signers",
+    rule=("(n, t) from 2..254 (biased to n ≤ 12, always including t+1 around 8/9/16/17 and n = 254), seed, message, tag; the dealer output is checked by finite differences (all n private shares on one polynomial of degree exactly t), "
+          "P(0)·g2 = group key and sk_i·g2 = pk_i by the oracle; expected signature := compress(P(0)·H(m)); signer subsets of size ≥ t+1 in ascending / descending / interleaved / random order through the stateless function and through a generated "
+          "interleaving of TrustedAdd / VerifyAndAdd; one bad share (other signer's, random G1 point, s+T, malformed, identity, wrong length 0/1/47/49/96) at a generated position (the TrustedAdd sequence repeated on 12 fresh objects because the "
+          "implementation iterates a Go map); all subsets for n ≤ 5 (thorough 6) and all orders for n ≤ 4; error inputs. Non-trivial = the subset is not {0..t} ascending, or a bad share is present; distinct by draw-record hash / by construction."),
+    assumptions=BLS_ASSUME + ["oracle/fr (Lagrange / finite differences over F_r) is trusted; self-tested on hand-checked polynomials",
+                              "a share s+T whose small-order component is annihilated by its Lagrange coefficient legitimately yields the exact signature; this is accepted (class torsionAnnihilatedByLagrangeCoefficient)"],
+    jobs=[
+        J("TestC06_Generated", 100, 700, shards=8),
+        J("TestC06_BadShare", 150, 1200, shards=4),
+        J("TestC06_Subsets", 2, 2, shards=2),
+        J("TestC06_Fixed", 12, 60, shards=2),
+        J("TestC06_Errors", 150, 1000, shards=1),
+    ],
+)
+
+PROPS["C11"] = dict(
+    title="ECDSA verification is exact on P-256 and secp256k1 for every hasher",
+    rule=("a case draws the curve, a key (generated from a seed or decoded from scalars 1, 2, n-1, n-2, small, 2^k, leading-zero-byte values, scalars whose public x or y has a leading zero byte, random), a message of 0..300 bytes and a hasher "
+          "(SHA2-256/384, SHA3-256/384, Keccak-256, KMAC128 with generated key/customizer/size 32..64, or a scripted hasher whose first 32 bytes are 0, 1, n-1, n, n+1, 2^256-1 or random). Candidates: the library signature; r or s in {0, n, n+1, 2^256-1}; "
+          "all-zero; every length 0..130; random bytes; plus a drawn subset of costly kinds: oracle signatures with chosen nonces (incl. r with a leading zero byte), the (r, n-s) twin, r/s swapped, one-bit flips, r or s off by one, (n-r, s), "
+          "signatures of another message / key / the other curve, signature over the rightmost 32 digest bytes. For every candidate Verify must equal the generic-Weierstrass oracle on the leftmost 32 bytes of the oracle digest with nil error; "
+          "SignatureFormatCheck must equal (len = 64 and 1 <= r, s < n) and false implies Verify false; nil / short hashers give the typed errors. Non-trivial = a candidate passing the format check yet rejected, or an accepted twin; distinct by draw-record hash."),
+    assumptions=["oracle/wecdsa (math/big Weierstrass arithmetic, FIPS 186-4 verification) is trusted; self-tested on RFC 6979 vectors and cross-checked against crypto/ecdsa and btcec",
+                 "digests come from the oracle/sha2 and oracle/keccak implementations, not from the library's hashers"],
+    jobs=[
+        J("TestC11_Exact", 500, 3000, shards=12),
+        J("TestC11_Hasher", 2000, 20000, shards=1),
+    ],
+)
+
+PROPS["C12"] = dict(
+    title="Key generation is a fixed, in-range, deterministic function of the seed",
+    rule=("algorithm in {BLS12-381, P-256, secp256k1}; seed length classes 32..64, 65..256, boundaries {31,32,33,255,256,257}, 0..31, 257..300 with contents all-zero / all-0xff / generated (nil allowed at length 0); "
+          "expected private key bytes from the oracle derivation (IETF BLS KeyGen / HKDF-SHA256 to 48 bytes mod (n-1) + 1, on the oracle's own SHA-256/HMAC/HKDF); determinism, seed unmodified, range; out-of-range lengths give (nil, invalid-inputs). "
+          "Every length 0..300 x 3 contents x 3 algorithms is enumerated. Public keys of generated, decoded (structured scalar pools incl. 2^k, leading zero bytes) and aggregated private keys equal scalar·generator by the oracle (raw X||Y and X9.62 for ECDSA; calibrated G2 codec for BLS), "
+          "PublicKey() twice gives Equal keys, DecodePublicKey(Encode()) round-trips. Non-trivial = every accepted case; distinct by (algorithm, seed) / (algorithm, origin, scalar)."),
+    assumptions=["oracle/keygen implements the documented derivations on oracle/sha2; self-tested on the repository's pinned breaking-change vectors", "oracle/wecdsa and oracle/bls381 give scalar·generator"],
+    jobs=[
+        J("TestC12_Seed", 2000, 12000, shards=4),
+        J("TestC12_EveryLength", 8, 30, shards=2),
+        J("TestC12_PublicKey", 2000, 12000, shards=3),
+    ],
+)
+
+PROPS["C15"] = dict(
+    title="Sampling helpers are in range, valid and exactly uniform in the PRG's bits",
+    rule=("(1) in-package (go test -overlay into package random, /repo untouched), under the tape model (one attempt = ceil(bitlen(n-1)/8) source bytes, little-endian, masked to bitlen(n-1) bits, rejected if > n-1): for every n <= VERIF_N (quick 4096, thorough every n <= 65536) "
+          "UintN(n) is run on every possible first source read (256 or 65 536 tapes) and, after one rejected first read, on every possible second read: result < n, acceptance iff masked value <= n-1, result = masked value, every value hit by exactly 256^size/2^bitlen reads at both levels, "
+          "read length exactly size, stale high bytes irrelevant; plus 2^k, 2^k±1 (all k), 2^63, 2^64-1 and seed-derived n of every bit length on seed-derived tapes with forced rejections. (2) for every n <= 7 (thorough 8) and m <= n, Permutation/Shuffle/SubPermutation/Samples on every tape of accepted values "
+          "(per-draw ranges discovered by probing all 256 byte values), each tape also with every rejected value inserted at every position and with unused high bits set; every output valid and the tape→outcome map hits each of the n!/(n-m)! outcomes equally often; negative/inconsistent sizes error without swapping. "
+          "(3) public API: rapid histories on two equal-seed ChaCha20 PRGs checked for validity, equality, and against the model over the RFC 8439 oracle keystream. Non-trivial = n not a power of two (UintN); m < n or n >= 3 (permutation helpers); distinct = (n, tape) / (helper, n, m, tape) by construction, draw-record hash for (3)."),
+    assumptions=["the tape model stated in UintN's comments; an implementation that reads differently makes the in-package job report TAPE-MODEL-DOES-NOT-APPLY (inconclusive, exit 2), not a violation",
+                 "conditional uniformity at read depth >= 3 follows from the identical decision function verified at depths 1 and 2 (UintN carries no other state)",
+                 "SubPermutation's unused slice capacity is read only to tell draws apart during probing"],
+    jobs=[
+        J("TestC15_Public", 400, 4000, shards=4),
+        J("TestVerifC15_UintN", 4096, 65536, shards=16, kind="c15"),
+        J("TestVerifC15_Perm", 7, 8, shards=1, kind="c15"),
+    ],
+    exhaustive_note="UintN: all first reads (and all second reads after a rejection) for every n in the budget; permutation helpers: all accepted-value tapes for n <= 7 (8)",
+)
+
+PROPS["C20"] = dict(
+    title="Results do not depend on the build configuration",
+    rule=("each case generates one operation with generated valid and invalid inputs and sends the identical request line to worker programs built from the current tree as default (ADX), CGO_CFLAGS='-O2 -D__BLST_PORTABLE__', -tags purego and CGO_ENABLED=0 -tags no_cgo "
+          "(BLS-dependent operations go only to the three cgo builds); the answer lines must be byte-identical, and a worker that dies or answers malformed JSON while another answers is a disagreement. Operations: hashes with a split, KMAC128, ChaCha20 PRG reads and samples, key generation / decoding, "
+          "ECDSA verification, BLS sign / verify (~25 candidate classes) / PoP / aggregation / removal / one- and many-message verification / batch verdict lists / SPoCK / threshold key generation and reconstruction; TestC20_DKG compares full transcripts (every message, callback, End output) of the three DKG protocols "
+          "with n <= 5 (8) on a FIFO schedule incl. bad parameters and one damaged message. Non-trivial = the operation reaches BLS12-381 field arithmetic or absorbs >= 1 full Keccak block; distinct by draw-record hash."),
+    assumptions=["this CPU has ADX; the portable build really runs the non-ADX mulq assembly (blst's cpuid probe is not compiled by the cgo build)", "-D__BLST_NO_ASM__ does not compile on amd64 at the pinned commit and is excluded",
+                 "ECDSA Sign is randomized and excluded; batch verification is compared by verdict list; DKG callback log texts are not compared (the library names a complainer by map iteration)"],
+    jobs=[
+        J("TestC20_Configs", 1500, 15000, shards=6),
+        J("TestC20_DKG", 400, 3000, shards=4),
+    ],
+)
+
+
+import c15_overlay
+import c20_build
+
 
 def custom_command(job, tier, n, seed, rundir, repo, verif, work):
-    raise RuntimeError("no custom job kinds yet: %r" % job.get("kind"))
+    if job.get("kind") == "c15":
+        return c15_overlay.command(job, tier, n, seed, rundir, repo, verif, work)
+    raise RuntimeError("unknown job kind: %r" % job.get("kind"))
 
 
 def custom_build(pid, tier, repo, verif, work, goenv, log):
+    if pid == "C20":
+        return c20_build.build(repo, verif, work, goenv, log) is not None
+    if pid == "C15":
+        return c15_overlay.build(repo, verif, work, goenv, log)
     return True
 
 
 def custom_setup(repo, verif, work, goenv, log):
-    return True
+    return c20_build.build(repo, verif, work, goenv, log) is not None and c15_overlay.build(repo, verif, work, goenv, log)
 
 
 def custom_replay(pid, path, repo, verif, work, goenv, log):
+    if pid == "C15":
+        return c15_overlay.replay(path, repo, verif, work, goenv, log)
     return None
 
 NOT_APPLICABLE = {}
